@@ -36,6 +36,7 @@ type SpecEnv struct {
 	cellSt   *State
 	mapViews map[int][2]*Term // rec-spec map parameters: placeholder id -> (domain, values) arrays
 	atCallSite bool
+	outer      *State // the current state while inside old()/before(): now(e) escapes back to it
 	pureIdx  int               // which result of a multi-result pure function is meant (-1: single)
 }
 
@@ -59,6 +60,9 @@ func (env *SpecEnv) with(name string, v *Term, t types.Type) *SpecEnv {
 func (env *SpecEnv) inState(st *State) *SpecEnv {
 	n := *env
 	n.cellSt = env.cells()
+	if n.outer == nil {
+		n.outer = env.cur
+	}
 	n.cur = st
 	return &n
 }
@@ -938,6 +942,14 @@ func (env *SpecEnv) call(x *SExpr) (*Term, types.Type) {
 					env.fail("old() not available here")
 				}
 				return env.inState(env.old).tr(args[0])
+			case "now":
+				if env.outer == nil {
+					return env.tr(args[0])
+				}
+				n := *env
+				n.cur = env.outer
+				n.outer = nil
+				return n.tr(args[0])
 			case "before":
 				if env.before == nil {
 					env.fail("before() is only available in loop invariants")
